@@ -19,6 +19,10 @@ COUNTERS = {
     'no-dp-rowcount': {'datapackage-rowcount': None}, 'no-dp-bytes': {'datapackage-bytes': None},
     'no-dp-hash': {'datapackage-hash': None}, 'no-res-rowcount': {'resource-rowcount': None},
     'no-res-bytes': {'resource-bytes': None}, 'no-res-hash': {'resource-hash': None},
+    'no-bytes-no-hash': {'resource-bytes': None, 'datapackage-bytes': None, 'resource-hash': None},
+    'rowcounts-only': {'resource-bytes': None, 'datapackage-bytes': None, 'resource-hash': None, 'datapackage-hash': None},
+    'all-disabled': {'resource-bytes': None, 'datapackage-bytes': None, 'resource-hash': None, 'datapackage-hash': None,
+                     'resource-rowcount': None, 'datapackage-rowcount': None},
 }
 DEFAULT_NAMES = {'datapackage-rowcount': 'count_of_rows', 'datapackage-bytes': 'bytes', 'datapackage-hash': 'hash',
                  'resource-rowcount': 'count_of_rows', 'resource-bytes': 'bytes', 'resource-hash': 'hash'}
@@ -26,6 +30,8 @@ TABLES = {
     'ascii': [('r0', [('i', 'integer'), ('s', 'string')], [{'i': 1, 's': 'a'}, {'i': 2, 's': 'b,c'}])],
     'multibyte': [('r0', [('s', 'string')], [{'s': 'é😀'}, {'s': 'ü'}, {'s': 'l1\nl2'}])],
     'empty': [('r0', [('i', 'integer')], [])],
+    'nonascii-names': [('r0', [('é😀', 'string'), ('ü', 'integer')], [{'é😀': 'x', 'ü': 1}])],
+    'long': [('r0', [('i', 'integer'), ('s', 'string')], [{'i': k, 's': 'row-%05d-%s' % (k, 'x' * 20)} for k in range(700)])],
     'two': [('r0', [('i', 'integer')], [{'i': 1}]), ('r1', [('s', 'string')], [{'s': 'é'}, {'s': None}])],
     'three': [('r0', [('i', 'integer')], [{'i': 1}, {'i': 2}, {'i': 3}]), ('r1', [('s', 'string')], []), ('r2', [('n', 'number')], [{'n': 0.5}])],
 }
@@ -93,7 +99,14 @@ def check(case):
             if facts is None:
                 V('path', 'recorded path %r does not exist' % r['path'])
                 continue
-            nrows = len(dumps.decode_resource(root, r))
+            try:
+                nrows = len(dumps.decode_resource(root, r))
+            except Exception as e:
+                V('file-undecodable', '%s: %s cannot be decoded (%s: %s) - %d bytes on disk' % (r['name'], r['path'], type(e).__name__, str(e)[:60], facts['bytes']))
+                continue
+            exp_rows = len(TABLES[case['table']][i][2])
+            if nrows != exp_rows:
+                V('file-incomplete', '%s: the file holds %d rows, %d were dumped' % (r['name'], nrows, exp_rows))
             tot_rows += nrows
             tot_bytes += facts['bytes']
             rb, rh, rc = get_attr(r, nm['resource-bytes']), get_attr(r, nm['resource-hash']), get_attr(r, nm['resource-rowcount'])
@@ -119,7 +132,12 @@ def check(case):
         if stats.get('count_of_rows') != pr:
             V('stats-rowcount', 'process() stats count_of_rows=%r, written descriptor %r' % (stats.get('count_of_rows'), pr))
         if stats.get('bytes') != pb:
-            V('stats-bytes', 'process() stats bytes=%r, written descriptor %r' % (stats.get('bytes'), pb))
+            dsize = os.path.getsize(os.path.join(root, 'datapackage.json'))
+            if pb is not None and stats.get('bytes') == pb + dsize:
+                V('stats-bytes', 'process() stats bytes=%r, written descriptor %r' % (stats.get('bytes'), pb))
+            else:
+                V('stats-bytes-unexplained', 'process() stats bytes=%r is neither the written descriptor\'s %r nor that plus the '
+                  'size of datapackage.json on disk (%d)' % (stats.get('bytes'), pb, dsize))
         if stats.get('hash') != ph:
             V('stats-hash', 'process() stats hash=%r, written descriptor %r' % (stats.get('hash'), ph))
         # dumping the same data twice gives identical hashes
